@@ -360,6 +360,93 @@ theorem stableSort_perm (lt : T → T → Bool) : ∀ l : List T, (stableSort lt
     simp only [stableSort, List.foldr_cons] at *
     exact (insertBy_perm lt x _).trans (ih.cons x)
 
+/-! stable sort: sortedness and stability, for an order test that compares a key -/
+theorem insertBy_sorted (k : T → Int) (lt : T → T → Bool) (hlt : ∀ a b, lt a b = decide (k a < k b)) (x : T) :
+    ∀ l : List T, l.Pairwise (fun a b => k a ≤ k b) → (insertBy lt x l).Pairwise (fun a b => k a ≤ k b)
+  | [], _ => by simp [insertBy]
+  | y :: ys, h => by
+    have hy := List.pairwise_cons.mp h
+    simp only [insertBy]
+    split
+    · rename_i hc
+      rw [hlt] at hc
+      have hyx : k y < k x := by simpa using hc
+      refine List.pairwise_cons.mpr ⟨?_, insertBy_sorted k lt hlt x ys hy.2⟩
+      intro z hz
+      have hz' := (List.Perm.mem_iff (insertBy_perm lt x ys)).mp hz
+      rcases List.mem_cons.mp hz' with rfl | hz''
+      · omega
+      · exact hy.1 z hz''
+    · rename_i hc
+      rw [hlt] at hc
+      have hxy : k x ≤ k y := by
+        have : ¬ k y < k x := by simpa using hc
+        omega
+      refine List.pairwise_cons.mpr ⟨?_, h⟩
+      intro z hz
+      rcases List.mem_cons.mp hz with rfl | hz'
+      · exact hxy
+      · have := hy.1 z hz'; omega
+
+theorem stableSort_sorted (k : T → Int) (lt : T → T → Bool) (hlt : ∀ a b, lt a b = decide (k a < k b)) :
+    ∀ l : List T, (stableSort lt l).Pairwise (fun a b => k a ≤ k b)
+  | [] => by simp [stableSort]
+  | x :: xs => by
+    have ih := stableSort_sorted k lt hlt xs
+    simp only [stableSort, List.foldr_cons] at ih ⊢
+    exact insertBy_sorted k lt hlt x _ ih
+
+theorem insertBy_filter (k : T → Int) (lt : T → T → Bool) (hlt : ∀ a b, lt a b = decide (k a < k b)) (v : Int) (x : T) :
+    ∀ l : List T, (insertBy lt x l).filter (fun a => k a == v) = (x :: l).filter (fun a => k a == v)
+  | [] => by simp [insertBy]
+  | y :: ys => by
+    simp only [insertBy]
+    split
+    · rename_i hc
+      rw [hlt] at hc
+      have hyx : k y < k x := by simpa using hc
+      have ih := insertBy_filter k lt hlt v x ys
+      simp only [List.filter_cons] at ih ⊢
+      rw [ih]
+      by_cases h1 : k y = v <;> by_cases h2 : k x = v
+      · omega
+      · simp [h1, h2]
+      · simp [h1, h2]
+      · simp [h1, h2]
+    · rfl
+
+theorem stableSort_filter (k : T → Int) (lt : T → T → Bool) (hlt : ∀ a b, lt a b = decide (k a < k b)) (v : Int) :
+    ∀ l : List T, (stableSort lt l).filter (fun a => k a == v) = l.filter (fun a => k a == v)
+  | [] => by simp [stableSort]
+  | x :: xs => by
+    have ih := stableSort_filter k lt hlt v xs
+    simp only [stableSort, List.foldr_cons] at ih ⊢
+    rw [insertBy_filter k lt hlt v x, List.filter_cons, List.filter_cons, ih]
+
+/-! in-order -/
+theorem inord_perm : ∀ (t : T) (l : List T), inord t = some l → l.Perm (T.nodes t)
+  | .node i x l' s [], l, h => by simp [inord] at h; subst h; simp [T.nodes, T.nodesL]
+  | .node i x l' s [a, b], l, h => by
+    simp only [inord] at h
+    cases ha : inord a with
+    | none => rw [ha] at h; simp at h
+    | some la =>
+      cases hb : inord b with
+      | none => rw [ha, hb] at h; simp at h
+      | some lb =>
+        rw [ha, hb] at h
+        simp only [Option.some.injEq] at h
+        subst h
+        have pa := inord_perm a la ha
+        have pb := inord_perm b lb hb
+        simp only [T.nodes, T.nodesL, List.append_nil]
+        have : (la ++ [T.node i x l' s [a, b]] ++ lb).Perm (T.node i x l' s [a, b] :: (la ++ lb)) := by
+          rw [List.append_assoc]
+          exact List.perm_middle
+        exact this.trans (List.Perm.cons _ (List.Perm.append pa pb))
+  | .node i x l' s [a], l, h => by simp [inord] at h
+  | .node i x l' s (a :: b :: c :: r), l, h => by simp [inord] at h
+
 end DendroModel.C15.Aux
 
 namespace DendroModel.C15
@@ -451,6 +538,26 @@ theorem ageorder_perm (age : T → Frac) (desc : Bool) (t : T) :
   simp only [Bool.true_or, Bool.and_self, filter_true]
   refine (stableSort_perm _ _).trans ?_
   rw [preorder_spec, filter_true]; simp [pre]
+
+/-- age order is monotone in the sort key and stable (ties keep their pre-order positions), for any order test that
+    compares a key — ascending uses the age itself, descending its negation -/
+theorem ageorder_sorted_stable (k : T → Int) (lt : T → T → Bool) (hlt : ∀ a b, lt a b = decide (k a < k b)) (l : List T) :
+    (stableSort lt l).Pairwise (fun a b => k a ≤ k b)
+    ∧ ∀ v, (stableSort lt l).filter (fun a => k a == v) = l.filter (fun a => k a == v) :=
+  ⟨stableSort_sorted k lt hlt l, fun v => stableSort_filter k lt hlt v l⟩
+
+/-- in-order on a binary tree visits every node exactly once (left subtree, node, right subtree by definition) -/
+theorem inorder_each_node_once (keep : T → Bool) (t : T) (l : List T) (h : inIter (fun _ => true) t = some l) :
+    l.Perm (T.nodes t) ∧ inIter keep t = some (l.filter keep) := by
+  unfold inIter at h ⊢
+  cases hi : inord t with
+  | none => rw [hi] at h; simp at h
+  | some l0 =>
+    rw [hi] at h
+    simp only [Option.map_some, Option.some.injEq] at h
+    rw [Aux.filter_true] at h
+    subst h
+    exact ⟨inord_perm t l0 hi, by simp⟩
 
 /-- non-vacuity: a concrete tree with a unary node and a polytomy, traversed from a non-root start -/
 example : (preIter (fun _ => true)
